@@ -2,6 +2,7 @@ package jschema
 
 import (
 	stdBytes "bytes"
+	"encoding/json"
 	"fmt"
 
 	"github.com/jsightapi/jsight-schema-go-library/bytes"
@@ -58,7 +59,7 @@ func (b *exampleBuilder) buildExampleForObjectNode(node *internalSchema.ObjectNo
 
 	buf.WriteRune('{')
 	children := node.Children()
-	length := len(children)
+	written := 0
 	for i, childNode := range children {
 		ex, err := b.Build(childNode)
 		if err != nil {
@@ -74,13 +75,17 @@ func (b *exampleBuilder) buildExampleForObjectNode(node *internalSchema.ObjectNo
 			return nil, err
 		}
 
+		// Separate from the previous written property: omitted children must
+		// not leave a dangling comma behind.
+		if written != 0 {
+			buf.WriteRune(',')
+		}
+		written++
+
 		buf.WriteRune('"')
 		buf.Write(k)
 		buf.WriteString(`":`)
 		buf.Write(ex)
-		if i+1 != length {
-			buf.WriteRune(',')
-		}
 	}
 	buf.WriteRune('}')
 	return buf.Bytes(), nil
@@ -88,7 +93,8 @@ func (b *exampleBuilder) buildExampleForObjectNode(node *internalSchema.ObjectNo
 
 func (b *exampleBuilder) buildObjectKey(k internalSchema.ObjectNodeKey) ([]byte, error) {
 	if !k.IsShortcut {
-		return []byte(k.Key), nil
+		// The key is stored decoded: escape it again for the JSON output.
+		return escapeJSONString(k.Key), nil
 	}
 
 	typ, ok := b.types[k.Key]
@@ -100,7 +106,24 @@ func (b *exampleBuilder) buildObjectKey(k internalSchema.ObjectNodeKey) ([]byte,
 	if err != nil {
 		return nil, err
 	}
+	// Strip the enclosing quotes only (the literal itself may end with \").
+	if len(ex) >= 2 && ex[0] == '"' && ex[len(ex)-1] == '"' {
+		return ex[1 : len(ex)-1], nil
+	}
 	return stdBytes.Trim(ex, `"`), nil
+}
+
+// escapeJSONString returns s escaped for use inside a JSON string (without
+// the enclosing quotes).
+func escapeJSONString(s string) []byte {
+	var buf stdBytes.Buffer
+	enc := json.NewEncoder(&buf)
+	enc.SetEscapeHTML(false)
+	if err := enc.Encode(s); err != nil {
+		return []byte(s)
+	}
+	b := stdBytes.TrimSuffix(buf.Bytes(), []byte("\n"))
+	return b[1 : len(b)-1]
 }
 
 func (b *exampleBuilder) buildExampleForArrayNode(node *internalSchema.ArrayNode) ([]byte, error) {
@@ -113,8 +136,8 @@ func (b *exampleBuilder) buildExampleForArrayNode(node *internalSchema.ArrayNode
 
 	buf.WriteRune('[')
 	children := node.Children()
-	length := len(children)
-	for i, childNode := range children {
+	written := 0
+	for _, childNode := range children {
 		ex, err := b.Build(childNode)
 		if err != nil {
 			return nil, err
@@ -124,10 +147,12 @@ func (b *exampleBuilder) buildExampleForArrayNode(node *internalSchema.ArrayNode
 			continue
 		}
 
-		buf.Write(ex)
-		if i+1 != length {
+		if written != 0 {
 			buf.WriteRune(',')
 		}
+		written++
+
+		buf.Write(ex)
 	}
 	buf.WriteRune(']')
 	return buf.Bytes(), nil
